@@ -277,11 +277,54 @@ def rule_take_once(ctx, cfg, F, D):
                     e = expr_strip_blocks(ex.of_operand(st["rv"]["a"][0]))
                     if (e[0] == "agg" and e[1].endswith("Option::Some")) or (e[0] == "agg" and e[1].endswith("Option::None")) or e[0] == "const":
                         R.ok("%s: the region field is Some(taken region) or the empty value" % f.path, f.loc(b, si), cfg)
+                    elif _known_some(f, b, st["rv"]["a"][0]) and any(x in chain_calls_ip(F, f, st["rv"]["a"][0]) for x in TAKERS):
+                        # `if taken.is_none() { return Err(..) } Ok(IpcSharedMemory { os_shared_memory: taken })`: the lookup result is kept as the Option it is,
+                        # but only where it has been found to hold a region, and it was moved out of its slot
+                        n += 1
+                        R.ok("%s: the region field is the taken slot itself, on the edge where it is known to hold a region" % f.path, f.loc(b, si), cfg)
                     else:
                         R.violate("%s:region:lookup-result-unchecked" % strip_generics(f.path), "the deserialised value wraps the result of the slot lookup as it is (%s): a missing or already used slot decodes to an empty region instead of an error" % expr_str(e)[:80],
                                   f.path, f.loc(b, si), config=cfg)
     R.count("conversion_sites[%s]" % cfg, n)
 
+
+
+def _known_some(f, b, operand):
+    """block b lies behind an edge that says the Option in `operand` (or what it was moved from) is Some: `is_some()` true, `is_none()` false, or the Some arm of a match"""
+    from vlib.flow import edge_label
+
+    def chain(l):
+        out = set()
+        for _ in range(8):
+            if l is None or l in out:
+                break
+            out.add(l)
+            ds = [d for d in f.defs().get(l, []) if not f.is_cleanup(d[0])]
+            if len(ds) == 1 and ds[0][1] is not None and ds[0][2]["rv"]["r"] in ("use", "ref") and not ds[0][2]["lhs"].get("p"):
+                src = ds[0][2]["rv"]["pl"] if ds[0][2]["rv"]["r"] == "ref" else op_place(ds[0][2]["rv"]["a"][0])
+                l = src["l"] if src is not None and not src.get("p") else None
+            else:
+                break
+        return out
+    mine = chain(op_local(operand))
+    if not mine:
+        return False
+    for s_ in f.live_blocks():
+        if f.term(s_)["t"] != "switch" or not f.dominates(s_, b) or s_ == b:
+            continue
+        for tgt in f.succ(s_):
+            if not (tgt == b or f.dominates(tgt, b)):
+                continue
+            if any(b in f.reachable(x, avoid=[tgt]) for x in f.succ(s_) if x != tgt):
+                continue
+            for lab in edge_label(f, s_, tgt):
+                if lab["kind"] == "pred" and ((lab["pred"] == "is_some" and lab["truth"]) or (lab["pred"] == "is_none" and not lab["truth"])):
+                    if chain(op_local(lab["arg"])) & mine:
+                        return True
+                if lab["kind"] == "variant" and lab.get("adt") == "std::option::Option" and lab.get("variant") == "Some" and not lab["place"].get("p"):
+                    if chain(lab["place"]["l"]) & mine:
+                        return True
+    return False
 
 
 def rule_decode_reader(ctx, cfg, F):
